@@ -88,6 +88,12 @@ impl<'a> BytesStart<'a> {
         BytesStart { name: self.name.owned(), slot: self.slot, attr0: self.attr0, nattr: self.nattr }
     }
 
+    /// Model hook: the `attr0` byte of the tape cell this start tag came from.  Cells without
+    /// attributes (`nattr == 0`) use it as a free tag that harness-side stubs can read.
+    pub fn model_tag(&self) -> u8 {
+        self.attr0
+    }
+
     pub fn to_owned(&self) -> BytesStart<'static> {
         self.clone().into_owned()
     }
